@@ -119,8 +119,8 @@ def _lh(label):
 
 
 def mujoco_units(tier):
-    names = LIGHT if tier == "quick" else tuple(ENVS)
-    timeout = 900 if tier == "quick" else 3000
+    names = tuple(ENVS)  # both tiers build all eleven environments (the heaviest takes ~80 s with the quick sizes)
+    timeout = 1500 if tier == "quick" else 3000
     return [{"name": f"mj-{n}", "timeout": timeout} for n in names]
 
 
